@@ -192,20 +192,22 @@ func checkKeyAgreement(c *Ctx, lc *LockCtx, scope []*ssa.Function, typ string, f
 			})
 		}
 		if len(accs) < 2 {
-			c.Undecided("key-agreement", field, fmt.Sprintf("expected ≥2 accesses of StrategyManager.%s, found %d", field, len(accs)))
+			c.Undecided("key-agreement", field, fmt.Sprintf("expected ≥2 accesses of %s.%s, found %d", typ, field, len(accs)))
 			continue
 		}
+		// the reference spelling is the one most accesses use
+		count := map[string]int{}
 		ref := accs[0].sp
 		for _, a := range accs {
-			if a.what[:4] == "read" {
+			count[a.sp]++
+			if count[a.sp] > count[ref] {
 				ref = a.sp
-				break
 			}
 		}
+		owner := typ[strings.LastIndex(typ, ":")+1:]
 		for _, a := range accs {
 			c.Check("key-agreement", field+":"+a.what, a.at, a.sp == ref,
-				fmt.Sprintf("StrategyManager.%s is accessed here under the key spelling [%s] but elsewhere under [%s]: state written for a backend is not found when it is read (counts read as zero / never return to zero)", field, a.sp, ref))
+				fmt.Sprintf("%s.%s is accessed here under the key spelling [%s] but elsewhere under [%s]: an entry stored under one spelling is not found under the other (lookups miss, counters read zero, entries are never removed)", owner, field, a.sp, ref))
 		}
 	}
-	_ = typ
 }
